@@ -43,6 +43,14 @@ func c16Cases(tier string, seed int64) []core.Case {
 			cases = append(cases, core.Case{ID: fmt.Sprintf("tree/%d/dotu=%v", t, dotu), Run: func(ctx *core.Ctx) core.Result { return c16Run(ctx, t, dotu) }})
 		}
 	}
+	for t := 0; t < 2; t++ {
+		t := t
+		cases = append(cases, core.Case{ID: fmt.Sprintf("tree/%d/plain-client-of-dotu-server", t), Run: func(ctx *core.Ctx) core.Result {
+			serverOffersDotu = true
+			defer func() { serverOffersDotu = false }()
+			return c16Run(ctx, t, false)
+		}})
+	}
 	return cases
 }
 
